@@ -726,11 +726,8 @@ class ConcCtx(BaseCtx):
     def real(self, name, lo=None, hi=None):
         n = self._name(name)
         v = self._val(n, lo if lo is not None else 0)
-        if isinstance(v, Fraction):
-            v = float(v) if v.denominator & (v.denominator - 1) == 0 and abs(v.numerator) < 2**52 else v
-        if isinstance(v, int):
-            v = float(v)
-        return v
+        # exact rationals: the replay must take the same side of every comparison as the model did
+        return v if isinstance(v, Fraction) else Fraction(v)
 
     def bool(self, name):
         n = self._name(name)
